@@ -62,7 +62,7 @@ CHECKS = {
     "C08": {
         "scenarios": [{"name": "malformed"}, {"name": "dups"}, {"name": "snapshots"}, {"name": "general", "tier": "thorough"}],
         "accept": ["liveness:", "dups:"],
-        "technique": "Lean: every model function total (termination checked), staking glue never panics, repeated entry hashes are skipped, an empty block always applies; entries that do not validate are skipped (a whole entry block of them is a no-op); transfer_entry_never_fails: no transfer-only entry (any shape, funded or not) can fail its step of ApplyTransactionBlock — recorded, then applied or rejected (block_total_partial for the transfer class); regenerated swallow/pool-read lists. Tie: blocks with malformed / oversized / truncated / duplicated entries on all three chains on reachable ledgers, real grader libraries, lock-step; well-formed batches built to overdraw through a change output; snapshot heights whose rate set has holes (held assets or pUSD recorded at 0); each block must apply",
+        "technique": "Lean: every model function total (termination checked), staking glue never panics, repeated entry hashes are skipped, an empty block always applies; entries that do not validate are skipped (a whole entry block of them is a no-op); transfer_entry_never_fails: no transfer-only entry (any shape, funded or not) can fail its step of ApplyTransactionBlock — recorded, then applied or rejected (block_total_partial for the transfer class); HistOK (every history row belongs to a recorded batch) along every chain, hence after ANY chain no entry block of transfer-only and invalid entries can fail (harmless_tx_block_never_fails_after_any_chain); regenerated swallow/pool-read lists. Tie: blocks with malformed / oversized / truncated / duplicated entries on all three chains on reachable ledgers, real grader libraries, lock-step; well-formed batches built to overdraw through a change output; snapshot heights whose rate set has holes (held assets or pUSD recorded at 0); each block must apply",
         "assumptions": [ORACLES, "a panic inside the grading libraries is outside the model (seen by the monitor only)", "SQLite lock escalation between the block transaction and pool reads is not modelled (known finding)"],
         "design_ref": "DESIGN.md §7 C08",
     },
@@ -125,7 +125,7 @@ CHECKS = {
     "C17": {
         "scenarios": [{"name": "ledger"}, {"name": "bank"}],
         "accept": ["history-replay:", "paging:", "holding:"],
-        "technique": "Lean: pages at offsets 0, 50, ... partition any ordered result; arrival records pending; rejected batch has no effect; status update hits exactly the rows of the hash; kernel-checked witness that an unconvertible amount stays pending; otherwise a held batch is resolved by the first rated block (partial theorem); the history row of an executed conversion carries the amount credited, the row of a paid PEG request carries yield and refund (the amounts the balance theorems of C04 / C16 show were credited). Tie: lock-step chain; monitor replays the whole history (+ scheduled adjustments) to the balances after every block",
+        "technique": "Lean: pages at offsets 0, 50, ... partition any ordered result; arrival records pending; rejected batch has no effect; status update hits exactly the rows of the hash; kernel-checked witness that an unconvertible amount stays pending; otherwise a held batch is resolved by the first rated block (partial theorem); every recorded action belongs to a recorded batch along every chain (HistOK); the history row of an executed conversion carries the amount credited, the row of a paid PEG request carries yield and refund (the amounts the balance theorems of C04 / C16 show were credited). Tie: lock-step chain; monitor replays the whole history (+ scheduled adjustments) to the balances after every block",
         "assumptions": [ORACLES, "API paging is modelled as LIMIT/OFFSET over a fixed ordered list"],
         "design_ref": "DESIGN.md §7 C17",
     },
